@@ -10,42 +10,58 @@ Has(ev, f) == f \in DOMAIN ev
 Norm(o) == [o EXCEPT !.utxo = Range(@), !.pool = Range(@)]
 TInit == EInit /\ l = 1 /\ div = NoDiv /\ taint = FALSE /\ devAll = {} /\ TLCSet(1, 1) /\ TLCSet(2, NoDiv) /\ TLCSet(3, {})
 
+(* R3 at engine level: the walks inside a push / a mining round / a tick re-admit rolled-back transactions in map order
+   and no property demands that the re-admitted set is maximal.  When the recorded pool is another conflict-free subset
+   of what was pending before the operation (or is pending in the specification now) that applies on the chain state,
+   the specification adopts it before the line is judged. *)
+VARIABLE poolPrev      \* the specification's pool before the operation being judged
+ChainSt == UndoSet(St, pool)
+CanAdopt(P) == /\ P # pool /\ P \subseteq (poolPrev \cup pool) /\ \A t \in P : ~OnChain(t, ptr)
+               /\ AllApply(ChainSt, GoodOrder(P), LHeight)
+Adopt(P) == /\ Set(ApplySeq(ChainSt, GoodOrder(P))) /\ pool' = P
+            /\ UNCHANGED <<blk, n, ltip, ptr, irr, dev, applied, pruned, hist, insH, insB, todo, eres>>
+NoBlkE(ev) == \/ (Has(ev, "p") /\ ev.p \notin 1..n) \/ (Has(ev, "b") /\ ev.b \notin 1..n) \/ (Has(ev, "d") /\ ev.d \notin 1..n)
 Judge(ev, r) == IF taint THEN NoDiv
                 ELSE IF r = ev.res /\ Norm(ev.obs) = Obs THEN NoDiv
                 ELSE [at |-> l, tr |-> ev.tr, op |-> ev.op, expres |-> r, actres |-> ev.res, exp |-> Obs, act |-> ev.obs, which |-> "engine"]
 (* simple operations: one action, judged one step later on the unprimed state (pending) *)
 VARIABLE pend      \* "" or the expected result of the line being judged
-tv2 == <<tevars, pend>>
+tv2 == <<tevars, pend, poolPrev>>
 Step ==
   /\ l <= Len(Trace) /\ div = NoDiv
   /\ LET ev == Trace[l] IN
-     IF pend # "" THEN      \* judge the line whose action was taken in the previous step
-        /\ div' = Judge(ev, pend) /\ pend' = "" /\ l' = l + 1
+     IF pend # "" /\ ~taint /\ ev.op \in {"push", "repush", "tick", "mine", "minetrunc"} /\ CanAdopt(Range(ev.obs.pool)) THEN
+        /\ Adopt(Range(ev.obs.pool)) /\ UNCHANGED <<l, div, taint, devAll, pend, poolPrev>>
+     ELSE IF pend # "" THEN      \* judge the line whose action was taken in the previous step
+        /\ div' = Judge(ev, pend) /\ pend' = "" /\ l' = l + 1 /\ poolPrev' = {}
         /\ UNCHANGED <<evars, taint, devAll>>
+     ELSE IF ev.op # "reset" /\ eres = "" /\ NoBlkE(ev) THEN      \* names a block nobody has: nothing happens
+        /\ UNCHANGED <<sv, insH, insB, todo, eres>> /\ Log([op |-> ev.op, res |-> "noblock"])
+        /\ pend' = "noblock" /\ UNCHANGED <<l, div, taint, devAll, poolPrev>>
      ELSE IF ev.op = "reset" THEN
-        /\ EReset /\ l' = l + 1 /\ taint' = FALSE /\ UNCHANGED <<div, devAll, pend>>
+        /\ EReset /\ l' = l + 1 /\ taint' = FALSE /\ poolPrev' = {} /\ UNCHANGED <<div, devAll, pend>>
      ELSE IF taint THEN
-        /\ l' = l + 1 /\ UNCHANGED <<evars, div, taint, devAll, pend>>
+        /\ l' = l + 1 /\ UNCHANGED <<evars, div, taint, devAll, pend, poolPrev>>
      ELSE IF ev.op = "push" /\ eres = "" THEN
-        /\ PushBegin(ev.p, ev.seqs, ev.kind) /\ UNCHANGED <<l, div, taint, devAll, pend>>
+        /\ PushBegin(ev.p, ev.seqs, ev.kind) /\ poolPrev' = poolPrev \cup pool /\ UNCHANGED <<l, div, taint, devAll, pend>>
      ELSE IF ev.op = "repush" /\ eres = "" THEN
-        /\ RePush(ev.b) /\ UNCHANGED <<l, div, taint, devAll, pend>>
+        /\ RePush(ev.b) /\ poolPrev' = poolPrev \cup pool /\ UNCHANGED <<l, div, taint, devAll, pend>>
      ELSE IF ev.op = "minetrunc" /\ eres = "" /\ ptr # ltip THEN      \* the round first walks the state to the ledger tip
-        /\ Tick /\ UNCHANGED <<l, div, pend>> /\ devAll' = devAll \cup dev' /\ taint' = (dev' # {})
+        /\ Tick /\ poolPrev' = poolPrev \cup pool /\ UNCHANGED <<l, div, pend>> /\ devAll' = devAll \cup dev' /\ taint' = (dev' # {})
      ELSE IF ev.op = "minetrunc" /\ eres = "" THEN
         /\ ETruncBegin(ev.d, IF ev.res = "ok" THEN ev.txs ELSE <<"*">>, Range(ev.obs.pool) \cup Range(ev.txs))
-        /\ UNCHANGED <<l, div, taint, devAll, pend>>
+        /\ poolPrev' = poolPrev \cup pool /\ UNCHANGED <<l, div, taint, devAll, pend>>
      ELSE IF ev.op \in {"push", "repush", "minetrunc"} /\ eres # "" /\ todo # <<>> THEN
-        /\ Micro /\ UNCHANGED <<l, div, pend>> /\ devAll' = devAll \cup dev' /\ taint' = (dev' # {})
+        /\ Micro /\ UNCHANGED <<l, div, pend, poolPrev>> /\ devAll' = devAll \cup dev' /\ taint' = (dev' # {})
      ELSE IF ev.op \in {"push", "repush", "minetrunc"} /\ eres # "" THEN
-        /\ PushEnd /\ pend' = eres /\ UNCHANGED <<l, div, taint, devAll>>
+        /\ PushEnd /\ pend' = eres /\ UNCHANGED <<l, div, taint, devAll, poolPrev>>
      ELSE IF ev.op \in {"push", "repush", "minetrunc"} THEN      \* after PushEnd: unreachable (pend is set)
         /\ FALSE
      ELSE IF ev.op = "mine" /\ ptr # ltip THEN
         \* the miner first walks the state to the ledger tip (a silent step when it succeeds; a failed walk fails the round)
         /\ Tick
         /\ pend' = (IF hist'[Len(hist')].res = "ok" THEN "" ELSE "fail")
-        /\ devAll' = devAll \cup dev' /\ taint' = (dev' # {})
+        /\ devAll' = devAll \cup dev' /\ taint' = (dev' # {}) /\ poolPrev' = poolPrev \cup pool
         /\ UNCHANGED <<l, div>>
      ELSE
         /\ CASE ev.op = "submit"  -> (eres = "" /\ SubmitAny(ev.t, ev.res) /\ UNCHANGED <<insH, insB, todo, eres>>)
@@ -53,9 +69,9 @@ Step ==
              [] ev.op = "tick"    -> Tick
              [] ev.op = "restart" -> ERestart
         /\ pend' = hist'[Len(hist')].res
-        /\ devAll' = devAll \cup dev' /\ taint' = (dev' # {})
+        /\ devAll' = devAll \cup dev' /\ taint' = (dev' # {}) /\ poolPrev' = poolPrev \cup pool
         /\ UNCHANGED <<l, div>>
-TSpec == TInit /\ pend = "" /\ [][Step]_tv2
+TSpec == TInit /\ pend = "" /\ poolPrev = {} /\ [][Step]_tv2
 Book ==
   /\ (div = NoDiv /\ l > TLCGet(1)) => (TLCSet(1, l) /\ TLCSet(3, devAll))
   /\ (div # NoDiv /\ (TLCGet(2) = NoDiv \/ TLCGet(2).at < div.at)) => TLCSet(2, div)
